@@ -225,6 +225,8 @@ def run_property(prop: str, tier: str, src: str = "/repo") -> dict | None:
     for q, c in reg.items():
         if c.assumed:
             out["assumed"].append({"function": q, "reason": c.assumed_reason})
+        elif c.assumed_variants is not None and any(r["qual"] == q for r in results):
+            out["assumed"].append({"function": q + " (some parameter-type variants)", "reason": c.assumed_variants_reason})
     out["wall_s"] = time.time() - t0
     return out
 
